@@ -133,6 +133,26 @@ def worlds(tier):
             W.append((f"flex-n3-q{q1}{q2}-takeover", "log",
                       dict(kind="flex", n=3, q1=q1, q2=q2, presubmit=((0, "c1"), (2, "c2")), starters=(0, 2),
                            max_starts=2, max_hb=0, max_moves=mm), 400_000))
+    # two simultaneous candidates that never hear each other's Prepare (equal ballot NUMBERS (1,a) / (1,c)), each with
+    # its own queued command; then the winner's heartbeat carries the commit index to the loser
+    cross = lambda pre: ((pre + "Prepare", "a", "c"), (pre + "Prepare", "c", "a"))  # noqa: E731
+    for kind, pre in ((("flex", "FlexPaxos"),) if q else (("flex", "FlexPaxos"), ("multi", "MultiPaxos"))):
+        W.append((f"{'flex-n3-q22' if kind == 'flex' else 'multi'}-2candidates-heartbeat", "log",
+                  dict(kind=kind, q1=2 if kind == "flex" else None, q2=2 if kind == "flex" else None,
+                       presubmit=((0, "c1"), (2, "c2")), starters=(0, 2), max_starts=2, max_hb=1, timer_nodes=("c",),
+                       drop=cross(pre), max_moves=10), 400_000))
+    # one stable leader, three commands in flight, fault-free; Accepts arrive in slot order, the acknowledgements
+    # in any order (the acks of the early slot may arrive last); liveness clause on the leader at quiescence
+    W.append(("multi-1leader-3cmds-acks-reordered", "log",
+              dict(kind="multi", presubmit=((0, "c1"), (0, "c2"), (0, "c3")), starters=(0,), max_hb=0, bounded=True,
+                   live=True, fifo=("MultiPaxosAccept",)), 400_000))
+    if not q:
+        W.append(("multi-1leader-3cmds-any-order", "log",
+                  dict(kind="multi", presubmit=((0, "c1"), (0, "c2"), (0, "c3")), starters=(0,), max_hb=0, bounded=True,
+                       live=True), 400_000))
+        W.append(("flex-n3-q22-1leader-3cmds-acks-reordered", "log",
+                  dict(kind="flex", q1=2, q2=2, presubmit=((0, "c1"), (0, "c2"), (0, "c3")), starters=(0,), max_hb=0,
+                       bounded=True, live=True, fifo=("FlexPaxosAccept",)), 400_000))
     # the SAME node leads twice: a leads, is cut off from c before its own entry is replicated, c leads and gets a
     # different command decided with b, then a runs Phase 1 again holding its stale own entry
     for kind in (("flex",) if q else ("flex", "multi")):
